@@ -160,8 +160,11 @@ class DefGen:
                              mk("lt_cow", extra=lt), mk("option", [mk("lt_cow", extra=lt)]), mk("lt_ref", [mk("lt_cow", extra=lt)], lt)])
         if consts and c < 0.62:
             return mk("constarray", [r.choice([U8, U16, BOOL])], r.choice(consts))
-        if c < 0.70:
+        if c < 0.66:
             return mk("phantom", [self.simple()])
+        if c < 0.70:
+            # a tuple whose first member is PhantomData, followed by several real members (erasure must keep their order)
+            return mk("tuple", [mk("phantom", [self.simple()]), r.choice([U8, BOOL]), r.choice([U16, STRING]), r.choice([U32, U64])])
         # a closed built-in type expression
         t = self.tg.ty(r.choice([0, 1, 1, 2]), need_enc=value_mode, allow_bitvec=True)
         return t
